@@ -1,7 +1,7 @@
 (** C14, MCP tools in Admin-proxy mode (Model/ManageProxy.v): what the tool sends, what it reports, what a
     refusal does, and how often the store can be touched by one call whatever the transport does. *)
 From Coq Require Import List ZArith NArith Bool Lia.
-From HK Require Import Gen.Consts Model.Queue Model.QueueHash Model.QueueMon Model.Headers Model.Publish Model.ManageGlue
+From HK Require Import Gen.Consts Gen.AdminProxy Model.Queue Model.QueueHash Model.QueueMon Model.Headers Model.Publish Model.ManageGlue
   Model.ManageProxy Proofs.QueueBase Proofs.QueueInv Proofs.QueueInvStep Proofs.QueueStep Proofs.QueueManage
   Proofs.HeadersProofs Proofs.ManageGlueProofs.
 Import ListNotations.
@@ -419,6 +419,148 @@ Proof.
   destruct (xe_allowed e); simpl; split; intros H;
     try reflexivity; try discriminate H; try (left; reflexivity);
     destruct H as [H | [st [c H]]]; discriminate H.
+Qed.
+
+(** * proxy mode and direct mode agree *)
+(** the audit strings of a call as parseMutationAuditArgs leaves them: trimmed (parseString) and within the caps
+    (validateMutationAuditFields) *)
+Definition audit_normal (principal : bytes) (a : paudit) : Prop :=
+  trim_space (pa_reason a) = pa_reason a /\ trim_space (pa_reqid a) = pa_reqid a /\ trim_space principal = principal
+  /\ blen (pa_reason a) <= max_reason_len /\ blen principal <= max_actor_len /\ blen (pa_reqid a) <= max_reqid_len.
+
+Lemma touches_any_managed x st idl ms : touches_managed x st idl ms = true -> any_managed x = true.
+Proof.
+  unfold touches_managed, any_managed. intros H. apply existsb_exists in H. destruct H as [i [_ H]].
+  destruct (find_id i ms) as [m|]; [|discriminate]. apply andb_true_iff in H. destruct H as [_ H].
+  unfold route_is_managed in H. apply existsb_exists in H. destruct H as [rt [Hin H]]. apply andb_true_iff in H.
+  apply existsb_exists. exists rt. tauto.
+Qed.
+
+Lemma policy_same x principal reqid :
+  match audit_policy_error x principal reqid true with None => true | Some _ => false end = mcp_managed_policy_ok x principal reqid.
+Proof.
+  unfold audit_policy_error, mcp_managed_policy_ok.
+  destruct (x_req_actor x && is_nil principal); [reflexivity|].
+  destruct (x_req_reqid x && is_nil reqid); [reflexivity|]. simpl.
+  destruct (actor_policy_on x); simpl; [|reflexivity].
+  destruct (is_nil principal); [reflexivity|]. destruct (actor_allowed x principal); reflexivity.
+Qed.
+
+Lemma ids_states_same k : ids_endpoint_states k = mcp_ids_tool_states k.
+Proof. destruct k; reflexivity. Qed.
+
+Lemma sent_audit_parsed e a rq :
+  xe_principal e <> [] -> audit_normal (xe_principal e) a ->
+  parse_maudit (ma_of (xe_principal e) a) = Some rq ->
+  parse_audit (xe_cfg e) (sent_audit (xe_principal e) a) = Some (pa_reason a, xe_principal e, pa_reqid a) /\ rq = pa_reqid a.
+Proof.
+  intros Pn [T1 [T2 [T3 [L1 [L2 L3]]]]] Pa.
+  destruct (sent_audit_carried e a rq Pa) as [[_ [_ [_ [Rn [_ [_ Hact]]]]]] Erq]. split; [|exact Erq].
+  specialize (Hact Pn). unfold sent_hreq in Hact. simpl in Hact.
+  unfold parse_audit. unfold sent_audit in *. simpl in *. rewrite Hact, T1, T2, T3.
+  destruct (pa_reason a) as [|b0 bt] eqn:Er; [contradiction|]. rewrite andb_false_r.
+  replace (max_reason_len <? blen (b0 :: bt)) with false by (symmetry; apply Z.ltb_ge; exact L1).
+  replace (max_actor_len <? blen (xe_principal e)) with false by (symmetry; apply Z.ltb_ge; exact L2).
+  replace (max_reqid_len <? blen (pa_reqid a)) with false by (symmetry; apply Z.ltb_ge; exact L3).
+  reflexivity.
+Qed.
+
+Definition tool_audit (t : ptool) : paudit :=
+  match t with PtIds _ a => xi_audit a | PtFilter _ a => xf_audit a end.
+
+Definition dec_rel (A D : decision) : Prop :=
+  (A = D /\ exists c, D = DCall c) \/ (exists st g, A = DReject st g /\ D = mreject).
+
+Lemma serve_relate now A D s :
+  dec_rel A D -> (fst (serve now A s), tool_result (CResp (snd (serve now A s)))) = serve now D s.
+Proof.
+  intros [[E [c Ec]] | [st [g [EA ED]]]].
+  - subst A D. simpl. destruct (exec_call now c s) as [s1 r] eqn:E. simpl.
+    destruct (exec_call_count _ _ _ _ _ E) as [n [m [p Er]]]. subst r. destruct c; reflexivity.
+  - subst A D. reflexivity.
+Qed.
+
+Lemma proxy_send_nofault e now t s q :
+  proxy_decide e t = PSend q ->
+  fst (proxy_request e now t [] s)
+  = (fst (sent_handler (xe_cfg e) now q s), tool_result (CResp (snd (sent_handler (xe_cfg e) now q s)))).
+Proof.
+  intros D. rewrite (proxy_request_send _ _ _ _ _ _ D). change (max_attempts MPost) with 1%nat. rewrite call_admin_one. reflexivity.
+Qed.
+
+Theorem proxy_agrees_with_direct e now t s :
+  xe_auth e = true -> xe_allowed e = true -> xe_principal e <> [] -> audit_normal (xe_principal e) (tool_audit t) ->
+  fst (proxy_request e now t [] s) = mcp_request (direct_env e) now (direct_tool e t) s.
+Proof.
+  intros Au Al Pn An.
+  destruct (proxy_decide e t) as [|q] eqn:D.
+  - (* refused by the tool: the direct mode refuses too *)
+    rewrite (proxy_request_reject _ _ _ _ _ D). simpl. unfold mcp_request.
+    assert (R : mcp_decide (direct_env e) (direct_tool e t) (msgs s) = mreject).
+    { destruct t as [k a | k a]; simpl in *.
+      - unfold proxy_decide_ids in D. unfold mcp_decide_ids, direct_env, mi_of. simpl.
+        destruct (xe_gate e); simpl in *; [|reflexivity].
+        destruct (xi_unknown a); [reflexivity|].
+        destruct (parse_maudit (ma_of (xe_principal e) (xi_audit a))); [|reflexivity].
+        destruct (xi_ids a) as [|raw]; [reflexivity|].
+        destruct (mcp_parse_ids raw); [|reflexivity].
+        rewrite Al in D. discriminate.
+      - destruct (proj1 (filter_refusal_as_direct e k a) D) as [X | [st [c X]]]; [congruence|].
+        rewrite X. unfold mcp_decide_filter, mreject in X. split_match X; inversion X; reflexivity. }
+    rewrite R. reflexivity.
+  - rewrite (proxy_send_nofault _ _ _ _ _ D). unfold sent_handler, admin_request, mcp_request. apply serve_relate.
+    destruct t as [k a | k a]; simpl in *.
+    + (* id tools *)
+      unfold proxy_decide_ids in D. unfold mcp_decide_ids, direct_env, mi_of. simpl.
+      destruct (xe_gate e); simpl in *; [|discriminate].
+      destruct (xi_unknown a); [discriminate|].
+      destruct (parse_maudit (ma_of (xe_principal e) (xi_audit a))) as [rq|] eqn:Pa; [|discriminate].
+      destruct (xi_ids a) as [|raw]; [discriminate|].
+      destruct (mcp_parse_ids raw) as [idl|] eqn:P; [|discriminate].
+      rewrite Al in D. simpl in D. inversion D; subst q; clear D. simpl.
+      destruct (sent_audit_parsed e _ _ Pn An Pa) as [Ea Erq]. subst rq.
+      unfold decide_ids, gate, sent_hreq. simpl. rewrite Au. simpl. rewrite Ea, (admin_reparses_ids _ _ P), ids_states_same.
+      destruct (touches_managed (xe_cfg e) (mcp_ids_tool_states k) idl (msgs s)) eqn:Tm.
+      * rewrite (touches_any_managed _ _ _ _ Tm). simpl. rewrite <- policy_same.
+        destruct (audit_policy_error (xe_cfg e) (xe_principal e) (pa_reqid (xi_audit a)) true) as [c|].
+        -- right. eauto.
+        -- left. split; [reflexivity | eauto].
+      * rewrite andb_false_r. left. split; [reflexivity | eauto].
+    + (* by-filter tools *)
+      unfold proxy_decide_filter in D. unfold mcp_decide_filter, direct_env. simpl.
+      destruct (xe_gate e); simpl in *; [|discriminate].
+      destruct (parse_maudit (ma_of (xe_principal e) (xf_audit a))) as [rq|] eqn:Pa; [|discriminate].
+      destruct (mcp_parse_filter (mcp_filter_tool_states k) (mf_of (xe_principal e) a)) as [p|] eqn:P; [|discriminate].
+      destruct (sent_audit_parsed e _ _ Pn An Pa) as [Ea Erq]. subst rq.
+      destruct (mcp_parse_filter_some _ _ _ P) as [_ [_ [_ [_ [_ [_ [Ens _]]]]]]].
+      assert (other :
+        (if match opt_route (pf_route p) with None => any_managed (xe_cfg e) | Some r => route_is_managed (xe_cfg e) r end
+         then PReject
+         else if negb (xe_allowed e) then PReject
+              else PSend (mkSent (EpFilter k) (sent_hreq e (xf_audit a)) (BFilter (FBOk (body_of_pfilt true p))))) = PSend q ->
+        dec_rel (decide (xe_cfg e) (sn_ep q) (sn_req q) (sn_body q) (msgs s))
+                match opt_route (pf_route p) with
+                | Some r => if route_is_managed (xe_cfg e) r then mreject
+                            else DCall (SCFilter k (mk_store_filt (opt_route (pf_route p)) p))
+                | None => if any_managed (xe_cfg e) then mreject
+                          else DCall (SCFilter k (mk_store_filt (opt_route (pf_route p)) p))
+                end).
+      { intros H.
+        destruct (match opt_route (pf_route p) with None => any_managed (xe_cfg e) | Some r => route_is_managed (xe_cfg e) r end) eqn:Bl; [discriminate|].
+        rewrite Al in H. simpl in H. inversion H; subst q; clear H. simpl.
+        unfold decide_filter, gate, sent_hreq. simpl. rewrite Au. simpl.
+        rewrite (admin_reparses_filter k _ p true P). simpl.
+        destruct (pf_route p) as [| |r] eqn:Er; [| contradiction |]; simpl in *; rewrite Ea, Bl; simpl;
+          left; (split; [reflexivity | eauto]). }
+      destruct (pf_app p) as [| |ap] eqn:Eapp; destruct (pf_ep p) as [| |ep] eqn:Eep; try (apply other; exact D).
+      destruct (mcp_managed_policy_ok (xe_cfg e) (xe_principal e) (pa_reqid (xf_audit a))) eqn:Pol; simpl in D; [|discriminate].
+      destruct (find_endpoint (xe_cfg e) ap ep) as [rt|] eqn:Ef; [|discriminate].
+      rewrite Al in D. simpl in D. inversion D; subst q; clear D. simpl.
+      unfold decide_scoped_filter, sent_hreq. simpl. rewrite Au, Ef. simpl.
+      rewrite (admin_reparses_filter k _ p false P). simpl. rewrite Ea.
+      rewrite <- policy_same in Pol.
+      destruct (audit_policy_error (xe_cfg e) (xe_principal e) (pa_reqid (xf_audit a)) true); [discriminate|].
+      left. split; [reflexivity | eauto].
 Qed.
 
 (** * non-vacuity *)
